@@ -113,7 +113,7 @@ def vaultCRof (e : Env) (v : Vault) : Option Dec :=
   | none => none
   | some p => vaultCR e p v.amountIn v.totalOut
 
-/-- the test `collateralizationRatio.LT(liqRatio)` (liquidate.go:107, liquidate_vaults.go:71, msg_server.go:63) -/
+/-- the test `collateralizationRatio.LT(liqRatio)` (liquidate.go:109, liquidate_vaults.go:72, msg_server.go:64) -/
 def vaultUnsafe (e : Env) (v : Vault) : Bool :=
   match e.product? v.prod, vaultCRof e v with
   | some p, some cr => decide (cr < p.minCr)
@@ -326,12 +326,12 @@ def liquidateBorrowV2 (e : Env) (id : Nat) (w : World) : StepR :=
       if r > borrowThreshold b then
         let a := e.app b.app
         if !a.wl2 then .err w else
-        -- liquidate.go:364-365: the flag is written first
+        -- liquidate.go:366-367: the flag is written first
         let w1 := { w with borrows := w.borrows.map (fun x => if x.id == id then { x with liquidated := true } else x) }
         if w1.poolBal.get b.assetIn < b.amountIn then .err w1 else
-        -- :373-381 collateral to the auction account, cTokens burnt
+        -- :376-384 collateral to the auction account, cTokens burnt
         let w2 := { w1 with poolBal := w1.poolBal.add b.assetIn (- b.amountIn), auctionBal := w1.auctionBal.add b.assetIn b.amountIn }
-        -- :383 CreateLockedVault with AuctionType = IsDutchActivated
+        -- :386 CreateLockedVault with AuctionType = IsDutchActivated
         if !a.dutch2 then .err w2 else
         let w3 := { w2 with lockedId := w2.lockedId + 1
                             newLocked := w2.newLocked ++ [{ id := w2.lockedId + 1, orig := b.id, app := b.app, amountIn := b.amountIn, isBorrow := true }] }
@@ -340,7 +340,7 @@ def liquidateBorrowV2 (e : Env) (id : Nat) (w : World) : StepR :=
                       newAuctions := w3.newAuctions ++ [{ id := w3.auctionId + 1, locked := w3.lockedId, asset := b.assetIn, amount := b.amountIn }] }
       else .ok w
 
-/-- the unwrapped loop of liquidate.go:248-254: the first error aborts the pass (the offset is then not stored) and
+/-- the unwrapped loop of liquidate.go:249-254: the first error aborts the pass (the offset is then not stored) and
 everything written before — including the partial writes of the failing step — stays -/
 def borrowLoopV2 (e : Env) : List Nat → World → StepR
   | [], w => .ok w
@@ -356,7 +356,7 @@ inductive Outcome
   | panic
 deriving Inhabited
 
-/-- generation 2 borrow pass (liquidate.go:237-263). The holder is READ under id 1 and, not having been found, is
+/-- generation 2 borrow pass (liquidate.go:230-259). The holder is READ under id 1 and, not having been found, is
 written back with `AppId` 0 — i.e. under the key of the VAULT sweep (offset.go:10-17 uses `holder.AppId`).
 `fix = true` models the one-line repair `holder.AppId = offsetCounterId`. -/
 def borrowPassV2 (fix : Bool) (e : Env) (batch : Nat) (w : World) : Outcome :=
